@@ -86,7 +86,7 @@ func (Builder) Generate(seed uint64, tier string) engine.Plan {
 			continue
 		}
 		op := BOp{Op: "extend"}
-		op.Size = int32(r.PickInt64(0, 0, 1, 63, 64, 65, 128, r.Range(0, 300)))
+		op.Size = int32(r.PickInt64(0, 0, 1, 63, 64, 65, 127, 128, 129, 255, 256, 257, 1023, 1024, 1025, r.Range(0, 300)))
 		if r.Chance(1, 10) {
 			op.Size = int32(r.Range(300, 5000))
 		}
